@@ -100,9 +100,14 @@ def lower_group(args):
             cfile = os.path.join(work, '%s.%s.c' % (u['id'], variant))
             with open(cfile, 'w') as f:
                 f.write(txt)
+            txt_nl, lines_nl = b.render_without_loop_contracts()
+            if txt_nl:
+                with open(cfile[:-2] + '.noloops.c', 'w') as f:
+                    f.write(txt_nl)
             meta = {'lines': b.lines_meta, 'target': b.target_cname, 'notes': b.notes, 'bodies': list(b.ctx.fn_bodies),
                     'fn_mode': dict(b.ctx.fn_mode), 'fn_info': b.ctx.fn_info,
-                    'fn_decls': list(b.ctx.fn_decls), 'consts': {k: {'kind': v['kind'], 'concrete': v.get('concrete')} for k, v in b.ctx.consts.items()}, 'native': nspec}
+                    'fn_decls': list(b.ctx.fn_decls), 'consts': {k: {'kind': v['kind'], 'concrete': v.get('concrete')} for k, v in b.ctx.consts.items()}, 'native': nspec,
+                    'lines_noloops': lines_nl if txt_nl else None}
             out.append((u['id'], variant, cfile, meta, None, txt))
         except Unsupported as e:
             out.append((u['id'], variant, None, None, 'lowering: %s' % e, None))
@@ -139,7 +144,7 @@ def verify_job(args):
 def classify(u, meta, res):
     """split obligations into canaries / failed / discharged and attach contract metadata"""
     out = {'canary_ok': False, 'failed': [], 'n': 0, 'discharged': 0, 'loop_obligations': 0, 'samples': []}
-    lines = {int(k): v for k, v in meta['lines'].items()}
+    lines = {int(k): v for k, v in (meta.get(res.get('lines_key') or 'lines') or {}).items()}
     for o in res['obligations']:
         desc = o.get('description') or ''
         if desc.startswith('canary'):
@@ -353,22 +358,23 @@ def main():
                         break
             unit_reports.append(rep)
         static_facts = []
-        if prop == 'C18' and not a.unit:
-            # alignment (from the real compilers' layout) and absence of allocation: not function contracts, see DESIGN.md C18
-            import c18_static
-            for o in c18_static.obligations(work):
+        # obligations that are not function contracts (layout from the real compilers, absence of allocation, configuration aliases)
+        STATIC = {'C18': [('c18_static', 'c18.layout')], 'C04': [('config_static', 'config')], 'C10': [('config_static', 'config')]}
+        for modname, sunit in (STATIC.get(prop, []) if not a.unit else []):
+            smod = importlib.import_module(modname)
+            for o in smod.obligations(work):
                 static_facts.append({k: o[k] for k in ('name', 'status', 'detail')})
                 if o['status'] == 'UNDECIDED':
                     undecided.append((o['name'], 'include', o['detail'])); continue
-                kf = [k for k in known if k.startswith('known:') and 'property=C18 ' in k and 'unit=c18.layout ' in k and o.get('label') and ('label=%s ' % o['label']) in k + ' ']
+                kf = [k for k in known if k.startswith('known:') and ('property=%s ' % prop) in k and ('unit=%s ' % sunit) in k and o.get('label') and ('label=%s ' % o['label']) in k + ' ']
                 if o['status'] == 'SUCCESS':
                     total_n += 1; total_ok += 1
                 elif kf:
                     if not any(kf[0] == x[0] for x in known_hits):
-                        known_hits.append((kf[0], {'unit': 'c18.layout', 'obligation': o['name']}))
+                        known_hits.append((kf[0], {'unit': sunit, 'obligation': o['name']}))
                 else:
                     total_n += 1
-                    violations.append({'unit': 'c18.layout', 'copy': 'include', 'label': o.get('label'), 'obligation': o['name'], 'description': o['detail'], 'clause': None,
+                    violations.append({'unit': sunit, 'copy': 'include', 'label': o.get('label'), 'obligation': o['name'], 'description': o['detail'], 'clause': None,
                                        'gen_line': None, 'repo_src': None, 'c_text': None, 'trace': None})
         wall = time.time() - t0
         # 6. evidence
